@@ -1,15 +1,309 @@
 package main
 
+// C04 harness: generates schemas, documents valid by construction and single-mutation mutants,
+// runs the real admission sequence (pipeline.go) and writes one case per line for the extracted
+// spec checker (ocaml/c04/driver.ml).
+//
+//   (c04schema N <schema>)
+//   (c04 N (meta valid|mutant "operator/variant" (feat "tag"…) "query text") <doc> <opname> (go t|f "stage" "family" "msg"))
+//   (c04merge N <doc-before> <doc-after>|(fail "stage" "msg"))
+
 import (
 	"bufio"
+	"encoding/json"
 	"fmt"
 	"os"
+	"sort"
 	"strings"
 
+	"gvh/common"
+
 	"github.com/wundergraph/graphql-go-tools/execution/graphql"
+	"github.com/wundergraph/graphql-go-tools/v2/pkg/astparser"
 )
 
-// probe: reads "schema SDL" from -schema file and queries (one per line) from stdin.
+type stats struct {
+	Cases      int            `json:"cases"`
+	Valid      int            `json:"valid"`
+	Mutants    int            `json:"mutants"`
+	Accepted   int            `json:"go_accepted"`
+	Rejected   int            `json:"go_rejected"`
+	ValidRej   int            `json:"valid_rejected_by_go"`
+	MutantAcc  int            `json:"mutants_accepted_by_go"`
+	PerOp      map[string]int `json:"per_operator"`
+	PerOpAcc   map[string]int `json:"per_operator_go_accepted"`
+	PerFamily  map[string]int `json:"per_go_family"`
+	PerFeat    map[string]int `json:"per_feature"`
+	PerKind    map[string]int `json:"per_operation_kind"`
+	Selfcheck  int            `json:"selfcheck_failures"`
+	Schemas    int            `json:"schemas"`
+	Inapplic   int            `json:"mutation_not_applicable_retries"`
+}
+
+func newStats() *stats {
+	return &stats{PerOp: map[string]int{}, PerOpAcc: map[string]int{}, PerFamily: map[string]int{}, PerFeat: map[string]int{}, PerKind: map[string]int{}}
+}
+
+type env struct {
+	schema *Schema
+	gs     *graphql.Schema
+	id     int
+}
+
+func newEnv(r *common.Rand, id int, out *common.Out) *env {
+	for {
+		s := genSchema(r)
+		gs, err := graphql.NewSchemaFromString(s.SDL())
+		if err != nil {
+			fmt.Fprintln(os.Stderr, "schema rejected:", err, "\n", s.SDL())
+			continue
+		}
+		if res, err := gs.Validate(); err != nil || !res.Valid {
+			fmt.Fprintln(os.Stderr, "schema invalid:", err, res.Errors, "\n", s.SDL())
+			continue
+		}
+		out.Line(common.L("c04schema", common.I(id), dumpSchema(gs.Document())))
+		return &env{schema: s, gs: gs, id: id}
+	}
+}
+
+func trunc(s string, n int) string {
+	if len(s) > n {
+		return s[:n]
+	}
+	return s
+}
+
+// observe runs Go on the text and renders the case line
+func observe(e *env, text string, own *Doc, opName string, kind, opLabel string, feats []string, st *stats) string {
+	docSexp := ""
+	stage := ""
+	msg := ""
+	parsed, report := astparser.ParseGraphqlDocumentString(text)
+	var a admission
+	if report.HasErrors() {
+		stage, msg = "parse", report.Error()
+		if own != nil {
+			docSexp = own.Sexp()
+		} else {
+			docSexp = "(doc)"
+		}
+	} else {
+		docSexp = dumpDocument(&parsed)
+		if own != nil && own.Sexp() != docSexp {
+			st.Selfcheck++
+			fmt.Fprintln(os.Stderr, "selfcheck: dumps differ for", text, "\n own:", own.Sexp(), "\n ast:", docSexp)
+		}
+		a = admit(e.gs, text, opName, "", false)
+		stage, msg = a.Stage, a.Message
+	}
+	accepted := stage == "" && a.Accepted
+	fam := family(stage, msg)
+	st.Cases++
+	if accepted {
+		st.Accepted++
+	} else {
+		st.Rejected++
+		st.PerFamily[fam]++
+	}
+	if kind == "valid" {
+		st.Valid++
+		if !accepted {
+			st.ValidRej++
+		}
+	} else {
+		st.Mutants++
+		base := strings.SplitN(opLabel, "/", 2)[0]
+		st.PerOp[base]++
+		if accepted {
+			st.MutantAcc++
+			st.PerOpAcc[base]++
+		}
+	}
+	sort.Strings(feats)
+	fl := []string{"feat"}
+	for _, f := range feats {
+		fl = append(fl, common.QS(f))
+		st.PerFeat[f]++
+	}
+	on := "(none)"
+	if opName != "" {
+		on = common.QS(opName)
+	}
+	return common.L("c04", common.I(e.id), common.L("meta", kind, common.QS(opLabel), common.L(fl...), common.QS(text)), docSexp, on,
+		common.L("go", common.B(accepted), common.QS(stage), common.QS(fam), common.QS(trunc(msg, 200))))
+}
+
+func cmdGen(args map[string]string) {
+	seed := common.ArgU64(args, "seed", 1)
+	n := common.ArgInt(args, "n", 1000)
+	out := common.NewOut(args["out"])
+	defer out.Close()
+	r := common.NewRand(seed)
+	st := newStats()
+	ops := mutOps()
+	var e *env
+	perSchema := 20
+	opIdx := 0
+	for i := 0; i < n; i++ {
+		if i%perSchema == 0 {
+			e = newEnv(r, i/perSchema+1, out)
+			st.Schemas++
+		}
+		if r.Chance(45, 100) {
+			gd := genValidDoc(r, e.schema, "")
+			st.PerKind[gd.kind]++
+			out.Line(observe(e, gd.doc.Text(), gd.doc, gd.opName, "valid", "", gd.feats, st))
+			continue
+		}
+		// mutants: operators in round-robin so that each family is covered evenly
+		for tries := 0; ; tries++ {
+			op := ops[opIdx%len(ops)]
+			gd := genValidDoc(r, e.schema, op.kind)
+			if op.kind != "" && gd.kind != op.kind {
+				// the schema has no such root type: take the next operator
+				opIdx++
+				continue
+			}
+			m := newMut(r, e.schema, gd)
+			variant := op.f(m)
+			if variant == "" {
+				st.Inapplic++
+				if tries > 20 {
+					opIdx++
+				}
+				continue
+			}
+			opIdx++
+			st.PerKind[gd.kind]++
+			out.Line(observe(e, m.doc.Text(), m.doc, gd.opName, "mutant", op.name+"/"+variant, gd.feats, st))
+			break
+		}
+	}
+	js, _ := json.MarshalIndent(st, "", " ")
+	fmt.Fprintln(os.Stderr, string(js))
+	if p := args["out"]; p != "" && p != "-" {
+		os.WriteFile(p+".dist", js, 0o644)
+	}
+}
+
+func cmdMerge(args map[string]string) {
+	seed := common.ArgU64(args, "seed", 1)
+	n := common.ArgInt(args, "n", 300)
+	out := common.NewOut(args["out"])
+	defer out.Close()
+	r := common.NewRand(seed ^ 0x5eed)
+	st := newStats()
+	var e *env
+	for i := 0; i < n; i++ {
+		if i%20 == 0 {
+			e = newEnv(r, i/20+1, out)
+		}
+		d := genMergeDoc(r, e.schema)
+		text := d.Text()
+		parsed, report := astparser.ParseGraphqlDocumentString(text)
+		if report.HasErrors() {
+			fmt.Fprintln(os.Stderr, "merge doc does not parse:", text, report.Error())
+			continue
+		}
+		before := dumpDocument(&parsed)
+		a := admit(e.gs, text, "", "", true)
+		after := ""
+		if a.Accepted {
+			after = dumpDocument(a.req.Document())
+		} else {
+			after = common.L("fail", common.QS(a.Stage), common.QS(trunc(a.Message, 200)))
+		}
+		out.Line(common.L("c04merge", common.I(e.id), before, after))
+	}
+	_ = st
+}
+
+// unq decodes the common.Q quoting
+func unq(s string) string {
+	var sb strings.Builder
+	for i := 0; i < len(s); i++ {
+		if s[i] == '\\' && i+2 < len(s) {
+			var v int
+			fmt.Sscanf(s[i+1:i+3], "%02x", &v)
+			sb.WriteByte(byte(v))
+			i += 2
+		} else {
+			sb.WriteByte(s[i])
+		}
+	}
+	return sb.String()
+}
+
+// splitCase parses  (case "sdl" "query" "opname"|(none) "label")
+func splitCase(line string) (items []string, ok bool) {
+	line = strings.TrimSpace(line)
+	if !strings.HasPrefix(line, "(case ") || !strings.HasSuffix(line, ")") {
+		return nil, false
+	}
+	body := line[6 : len(line)-1]
+	i := 0
+	for i < len(body) {
+		switch {
+		case body[i] == ' ':
+			i++
+		case body[i] == '"':
+			j := i + 1
+			for j < len(body) && body[j] != '"' {
+				j++
+			}
+			items = append(items, unq(body[i+1:j]))
+			i = j + 1
+		case strings.HasPrefix(body[i:], "(none)"):
+			items = append(items, "")
+			i += 6
+		default:
+			return nil, false
+		}
+	}
+	return items, len(items) == 4
+}
+
+func cmdCorpus(args map[string]string) {
+	in, err := os.Open(args["in"])
+	if err != nil {
+		panic(err)
+	}
+	defer in.Close()
+	out := common.NewOut(args["out"])
+	defer out.Close()
+	st := newStats()
+	sc := bufio.NewScanner(in)
+	sc.Buffer(make([]byte, 1<<20), 1<<26)
+	id := 0
+	for sc.Scan() {
+		line := sc.Text()
+		if strings.TrimSpace(line) == "" || strings.HasPrefix(line, "#") {
+			continue
+		}
+		items, ok := splitCase(line)
+		if !ok {
+			fmt.Fprintln(os.Stderr, "bad corpus line:", line)
+			os.Exit(2)
+		}
+		gs, err := graphql.NewSchemaFromString(items[0])
+		if err != nil {
+			fmt.Fprintln(os.Stderr, "corpus schema rejected:", err)
+			os.Exit(2)
+		}
+		id++
+		out.Line(common.L("c04schema", common.I(id), dumpSchema(gs.Document())))
+		e := &env{gs: gs, id: id}
+		kind := "mutant"
+		label := items[3]
+		if label == "valid" {
+			kind, label = "valid", ""
+		}
+		out.Line(observe(e, items[1], nil, items[2], kind, label, []string{"corpus"}, st))
+	}
+}
+
+// probe: reads a schema SDL file and queries (one per line) from stdin.
 func probe(schemaPath string) {
 	sdl, err := os.ReadFile(schemaPath)
 	if err != nil {
@@ -37,9 +331,24 @@ func probe(schemaPath string) {
 }
 
 func main() {
-	if len(os.Args) >= 3 && os.Args[1] == "probe" {
-		probe(os.Args[2])
-		return
+	if len(os.Args) < 2 {
+		fmt.Println("usage: c04 gen|merge|corpus|probe ...")
+		os.Exit(2)
 	}
-	fmt.Println("usage: c04 probe schema.graphql < queries")
+	switch os.Args[1] {
+	case "probe":
+		probe(os.Args[2])
+	case "gen":
+		cmdGen(common.Args(os.Args[2:]))
+	case "merge":
+		cmdMerge(common.Args(os.Args[2:]))
+	case "corpus":
+		cmdCorpus(common.Args(os.Args[2:]))
+	case "sdl":
+		r := common.NewRand(common.ArgU64(common.Args(os.Args[2:]), "seed", 1))
+		fmt.Print(genSchema(r).SDL())
+	default:
+		fmt.Println("unknown subcommand")
+		os.Exit(2)
+	}
 }
